@@ -89,7 +89,7 @@ func runHistory(c histCase) histObs {
 		if !c.VaryCfg {
 			return ""
 		}
-		return cfgNames[(i*7+len(c.ID))%len(cfgNames)]
+		return cfgNames[(i*5+len(c.ID))%len(cfgNames)]
 	}
 	dk := func(d, cfg string) string {
 		if cfg == "" {
